@@ -5,7 +5,8 @@ from .c01 import fix_disagreements
 
 MODULES = ['DsdVerif.Props.C05']
 GEN_FILES = []
-THEOREM_NAMES = ['reachable_sound', 'reachable_complete', 'collect_keeps_reachable', 'collect_drops_unreachable', 'drop_releases', 'query_no_edges', 'setTurns_no_edges', 'refused_adds_no_edges']
+THEOREM_NAMES = ['reachable_sound', 'reachable_complete', 'collect_keeps_reachable', 'collect_drops_unreachable', 'drop_releases', 'query_no_edges', 'setTurns_no_edges', 'refused_adds_no_edges',
+                 'reachable_no_handles', 'collect_no_handles', 'read_then_drop_releases']
 THEOREMS = ['Dsd.C05.' + t for t in THEOREM_NAMES]
 ASSUMPTIONS = [
     'CPython reference counting, the cyclic garbage collector and WeakValueDictionary are modelled as: an object is live exactly while it '
@@ -16,7 +17,9 @@ ASSUMPTIONS = [
 ]
 MANIFEST = {
     'text': 'Partial (runtime-dependent). The Lean World models the strong-reference graph (user handles + containment) and computes '
-            'liveness by reachability; after every operation of exhaustive short and random long histories (constructions of all five '
+            'liveness by reachability (reachable_sound / reachable_complete, collect_keeps_reachable / collect_drops_unreachable, '
+            'drop_releases; views and refused requests add no edges; collect_no_handles: with no handle left nothing survives in any '
+            'registry; read_then_drop_releases: whatever document the reader model read, dropping its dictionary leaves an empty world); after every operation of exhaustive short and random long histories (constructions of all five '
             'kinds, refused requests, complements, split, turns assignments, every view, drops) the weakref liveness of every object '
             'ever handed out and the names of all registries are compared with the model, immediately (no gc pass) for constructor-built '
             'objects; whole systems returned by the reader are dropped at once and must be released after one collection, after which '
